@@ -388,6 +388,12 @@ def t_part(ctx, prop):
         for n in run:
             tw = twin_name(n, prop)
             if tw not in SCHEMAS: continue
+            hung = [k for k, r in T.get('enum_cache', {}).items() if k[0] == n and any(f.get('hang') for f in r.get('fails', []))]
+            if hung:
+                # already found in this process: the generated parser of this schema does not return (reported under C01 and the
+                # schema's owners); comparing it with its twin would only time out again
+                out['inconclusive'].append('schema %s: its generated parser does not return on some table (reported as a termination violation); the differential run is skipped' % n)
+                continue
             if T['status'].get(tw, {}).get('verdict') == 'harness' and tw not in T['excluded']:
                 diff_jobs[n] = tw
             else:
